@@ -441,6 +441,9 @@ func TestC15(t *testing.T) {
 		if info.Zeroed > 0 {
 			labels = append(labels, "burn-address-had-balance")
 		}
+		if info.BurnOnSnapshot {
+			labels = append(labels, "mint-burn-on-a-snapshot-height")
+		}
 		if sc.Era.V202 > uint32(144*((sc.Chain.Start/144)+1)) {
 			labels = append(labels, "dev-payout-before-2.0.2")
 		}
